@@ -190,6 +190,26 @@ theorem c05_pred_model (hrt : HeaderRoundTrip) (s : Start) (ops : List Op)
   simp only [hstart, Bool.not_true, Bool.false_or, hr, Bool.true_and, hinit, hf]
   exact finalOk_model hrt _ hfw
 
+/-- what the executable predicate says at the surface (the complete meaning is the definition of
+    `foldOk` / `readsOk` / `finalOk` in Rtp/Pred/C05.lean, which mention Spec.OrderedMap only): one
+    observation per operation and none of them a panic, Marshal did not panic, the initial reads
+    show the start map, and the history folds to a map against which the final clause holds. -/
+theorem c05_pred_meaning (s : Start) (ops : List Op) (o : Obs) (h : Pred.C05.pred s ops o = true)
+    (hs : o.startOk = true) :
+    o.steps.length = ops.length ∧ (∀ t ∈ o.steps, t.res ≠ .panic) ∧ o.final.marshal ≠ .panic ∧
+    readsOk o.start [] o.init = true ∧
+    ∃ m, foldOk o.start (o.init.x, o.init.profile) ops o.steps = some m ∧ finalOk m o.final = true := by
+  simp only [Pred.C05.pred, holds, hs, Bool.not_true, Bool.false_or, Bool.and_eq_true] at h
+  obtain ⟨hr, hf⟩ := h
+  cases hfold : foldOk o.start (o.init.x, o.init.profile) ops o.steps with
+  | none => simp [hfold] at hf
+  | some m =>
+    simp only [hfold] at hf
+    obtain ⟨h1, h2⟩ := foldOk_shape ops _ _ _ m hfold
+    refine ⟨h1, h2, ?_, hr, m, rfl, hf⟩
+    intro hc
+    simp [finalOk, hc] at hf
+
 /-- the full statement: the predicate holds of the model on every start state of the property
     (struct literal satisfying `Inv` with sane fixed fields, or any wire image that decodes, into a
     fresh or a used receiver) and every operation list after which the block still fits the 16-bit
